@@ -336,7 +336,10 @@ def run_sched(res, pi, shard, nshards, tier):
                 return "thread %s: result under this schedule differs from the sequential result (%s vs %s)" % (n, str(got)[:160], str(want)[:160])
         return None
 
-    sched.MAX_PER_LABEL[0] = (2 if gran == "line" else 3) if tier == "quick" else 8
+    if tier == "quick":
+        sched.MAX_PER_LABEL[0] = 2 if gran == "line" else 3
+    else:
+        sched.MAX_PER_LABEL[0] = 2 if bound >= 2 else (4 if gran == "line" else 8)
     if gran == "call-all":
         gran = "call"
         sched.MAX_PER_LABEL[0] = None       # small harness: every event is a scheduling point
@@ -412,7 +415,7 @@ def describe(tier):
                     "schedules: case = one complete interleaving (list of choices) of the harness; state = distinct observation / outcome",
             "bounds": {"history_operations": len(hist_ops()), "fresh_history_depth": 2 if tier == "quick" else 3, "window_length": 3 if tier == "quick" else 4,
                        "schedule_harnesses": [(l, g, b) for _, l, g, b in sched_pairs(tier)], "threads": "2 (one 3-thread harness in the thorough tier)",
-                       "scheduling_points_per_thread_and_code_location": "3 (call granularity) / 2 (line granularity)" if tier == "quick" else 8}}
+                       "scheduling_points_per_thread_and_code_location": "3 (call granularity) / 2 (line granularity)" if tier == "quick" else "8 (call) / 4 (line) / 2 (two pre-emptions)"}}
 
 
 def replay(case):
